@@ -44,6 +44,7 @@ size_t ref_fake_imprint(int alg, unsigned seed, unsigned char out[RH_MAX_IMPRINT
 /* hash algorithm life cycle (from the KSI spec table used by the SDK): SHA-1 deprecated from 2016-07-01 */
 #define REF_SHA1_DEPRECATED_FROM 1467331200ULL
 int  ref_hash_deprecated_at(int alg, uint64_t t);   /* 1 if deprecated at t */
+int  ref_backend_supports(int alg);                 /* computable by the SDK's OpenSSL back end */
 int  ref_hash_trusted(int alg);                     /* never deprecated / obsolete, and known */
 size_t ref_hmac(int alg, const void *key, size_t keylen, const void *data, size_t n, unsigned char out[RH_MAX_IMPRINT]);
 
